@@ -154,6 +154,26 @@ def run_C16(seed, tier):
             res['distribution']['grammars'] += 1
         for v in cli_failures(cli, d, res):
             res['prop'].append(v)
+        # settings through the builder of the build-script helper, in either order of the calls, against the library call
+        ug = "@export\nS = a:A {b:B};\nA = 'a';\n@check(crate::ck)\nB = v:Num;\n@string\nNum = {'0'..'9'}+;\n"
+        up = os.path.join(d, 'uctx.ebnf')
+        open(up, 'w').write(ug)
+        ul = os.path.join(d, 'uctx.lst')
+        open(ul, 'w').write('u\t%s\t%s\tcrate::Ctx\tDebug,Clone,PartialEq\n' % (up, os.path.join(d, 'uctx.lib')))
+        subprocess.run([PVGEN, 'gen', ul], stdout=subprocess.PIPE, stderr=subprocess.DEVNULL, text=True, timeout=120)
+        if os.path.exists(os.path.join(d, 'uctx.lib')):
+            lib = open(os.path.join(d, 'uctx.lib')).read()
+            for order in ('uctx-first', 'uctx-last'):
+                dst = os.path.join(d, 'uctx_%s.rs' % order)
+                subprocess.run([PVUNIT, 'compile', up, dst, '-', 'Debug,Clone,PartialEq', order + ':crate::Ctx'], stdout=subprocess.PIPE, stderr=subprocess.PIPE, text=True, timeout=120)
+                res['evaluations'] += 1
+                res['nontrivial'].add(('settings', order))
+                body = strip_header(open(dst).read())[1] if os.path.exists(dst) else ''
+                if lib not in body:
+                    res['prop'].append(dict(kind='routes', grammar=ug, derives='Debug,Clone,PartialEq', prefix='',
+                                            what='build-script helper with user_context_type and derives (%s) does not produce the code of the library call with the same settings' % order))
+        else:
+            res['strict'].append(dict(kind='routes', grammar=ug, what='library call with a user context type failed'))
         # the macro route
         from . import macroroute
         mr = macroroute.run_macro(seed, tier)
